@@ -261,6 +261,28 @@ def rand_reuse_pair(rng):
             'want_m': [m_nm, sorted([sorted(k), o] for k, o in intended_edges(m_ch, m_od, m_rg).items())]}
 
 
+def later_virtual(rng, c):
+    """seed C11-11: the virtual nodes of the modified base graph get names that are fragment names of a LATER fragment
+    list (never of the first one, where they would be real): at their own level they are still fragment-less"""
+    import re as _re
+    elements = _re.findall(r"\{[^\}]+\}", c['modf'])
+    if len(elements) < 3:
+        return c
+    first = set(_re.findall(r'#([A-Za-z0-9]+)=', elements[1]))
+    later = sorted(set(_re.findall(r'#([A-Za-z0-9]+)=', ''.join(elements[2:]))) - first)
+    virt = sorted(set(_re.findall(r'\[#(V[0-9]+)\]', elements[0])))
+    if not later or not virt:
+        return c
+    ren = {v: rng.choice(later) for v in virt}
+    base = elements[0]
+    for v, w in ren.items():
+        base = base.replace('[#%s]' % v, '[#%s]' % w)
+    c = dict(c, modf=base + c['modf'][len(elements[0]):], later_virtual=True)
+    if 'want_m' in c:
+        c['want_m'] = [[ren.get(x, x) for x in c['want_m'][0]], c['want_m'][1]]
+    return c
+
+
 def pct_markers(text):
     """write every one-digit ring marker d as the two-digit marker %1d"""
     out, depth = '', 0
@@ -318,6 +340,8 @@ class C11(RS.StepProp):
         cg = '.{#A=[$][#X][#Y][$],#B=[$][#P]}'
         ml = '.{#P=[$][#A][#B][$],#Q=[$][#B][#A][$]}.{#A=[$]CC[$],#B=[$]O[$]}'
         mt = '.{#M=[$]C([$])[$],#T=[$]O}'
+        lv2 = '.{#R1=[#M][#N][>],#R2=[<][#N][#M]}.{#M=[$]CC[$],#N=[$]O[$]}'
+        lv3 = '.{#P=[$][#A][#B][$],#Q=[$][#B][#A][$]}.{#A=[$][#C][#C][$],#B=[$][#C][$]}.{#C=[$]C[$]}'
         return [
             {'kind': 0, 'orig': '{[#A][#B]}' + fr, 'modf': '{[#V].[#A][#B]}' + fr, 'rho': [[0, 1], [1, 2]], 'aa': True, 'legacy': True},
             {'kind': 0, 'orig': '{[#A][#B]}' + fr, 'modf': '{[#A][#B].[#V]}' + fr, 'rho': [[0, 0], [1, 1]], 'aa': True, 'legacy': True},
@@ -344,6 +368,15 @@ class C11(RS.StepProp):
              'rho': [[k, k + 1] for k in range(6)], 'aa': True, 'legacy': True},
             {'kind': 0, 'orig': '{[#T][#M][#M][#M]%10[#M][#M]%10}' + mt, 'modf': '{[#T].%10[#M][#M]%10[#M]%10[#M][#M]%10}' + mt,
              'rho': [[k, k] for k in range(6)], 'aa': True, 'legacy': True},
+            # a virtual node whose name is defined as a fragment in a LATER fragment list (seed C11-11): still virtual at its level
+            {'kind': 0, 'orig': '{[#R1][#R2]}' + lv2, 'modf': '{[#R1].([#M])[#R2]}' + lv2, 'rho': [[0, 0], [1, 2]], 'aa': True, 'legacy': True, 'level': 0},
+            {'kind': 0, 'orig': '{[#R1][#R2]}' + lv2, 'modf': '{[#R1].([#M])[#R2]}' + lv2, 'rho': [[0, 0], [1, 2]], 'aa': True, 'legacy': True, 'level': 1},
+            {'kind': 0, 'orig': '{[#R1][#R2]}' + lv2, 'modf': '{[#N].[#R1][#R2].[#M]}' + lv2, 'rho': [[0, 1], [1, 2]], 'aa': True, 'legacy': True, 'level': 0},
+            {'kind': 0, 'orig': '{[#P][#Q]}' + lv3, 'modf': '{[#P].1[#Q].[#C]1}' + lv3, 'rho': [[0, 0], [1, 1]], 'aa': True, 'legacy': True, 'level': 0},
+            {'kind': 0, 'orig': '{[#P][#Q]}' + lv3, 'modf': '{[#A].[#P][#Q]}' + lv3, 'rho': [[0, 1], [1, 2]], 'aa': True, 'legacy': True, 'level': 0},
+            {'kind': 0, 'orig': '{[#P][#Q]}' + lv3, 'modf': '{[#A].[#P][#Q]}' + lv3, 'rho': [[0, 1], [1, 2]], 'aa': True, 'legacy': True, 'level': 2},
+            {'kind': 1, 'orig': '{[#R1][#R2]}' + lv2, 'modf': '{[#R1]([#M])[#R2]}' + lv2, 'rho': [[0, 0], [1, 2]], 'aa': True, 'legacy': True},
+            {'kind': 1, 'orig': '{[#P][#Q]}' + lv3, 'modf': '{[#C][#P][#Q]}' + lv3, 'rho': [[0, 1], [1, 2]], 'aa': True, 'legacy': True},
             {'kind': 1, 'orig': '{[#A][#B]}' + fr, 'modf': '{[#V][#A][#B]}' + fr, 'rho': [[0, 1], [1, 2]], 'aa': True, 'legacy': True},
             {'kind': 1, 'orig': '{[#A][#B]}' + cg, 'modf': '{[#A][#B]=[#V]}' + cg, 'rho': [[0, 0], [1, 1]], 'aa': False, 'legacy': True},
             {'kind': 1, 'orig': '{[#A][#B]}' + cg, 'modf': '{[#A].[#V][#B]}' + cg, 'rho': [[0, 0], [1, 2]], 'aa': False, 'legacy': True},
@@ -358,6 +391,8 @@ class C11(RS.StepProp):
         while len(out) < n:
             c = rand_reuse_pair(rng) if rng.random() < 0.15 else rand_pair(rng, reject=rng.random() < 0.12)
             if c is not None:
+                if c.get('levels', 1) > 1 and rng.random() < 0.6:
+                    c = later_virtual(rng, c)
                 r = rng.random()
                 if r < 0.25:
                     c['ctor'] = 'graph'
